@@ -234,16 +234,16 @@ Definition oadd (a b : option N) : option N :=
   end.
 
 (* Does the node's goroutine ask the node for its version a second time?  Only the classifiers do:
-   submitattestations.go handleAttestationsError and submitsynccommitteemessages.go
-   handleSubmitSyncCommitteeMessagesError call serviceInfo for every error;
-   submitsynccommitteecontributions.go only once it has found a '{' in the error text (every
-   rendering but ShPlain has one); the five other kinds have no classifier. *)
+   submitattestations.go handleAttestationsError calls serviceInfo for every error (the one Scatter
+   kept); submitsynccommitteemessages.go and submitsynccommitteecontributions.go only once they
+   have found a '{' in the error text (every rendering but ShPlain has one); the five other kinds
+   have no classifier. *)
 Definition has_brace (e : err_desc) : bool := match e_shape e with ShPlain => false | _ => true end.
 
 Definition asks_again (k : kind) (bs : list beh) : bool :=
   match k with
-  | KAttestations | KSyncMessages => match err_calls bs with [] => false | _ => true end
-  | KSyncContributions => existsb (fun p => has_brace (snd p)) (err_calls bs)
+  | KAttestations => match err_calls bs with [] => false | _ => true end
+  | KSyncMessages | KSyncContributions => existsb (fun p => has_brace (snd p)) (err_calls bs)
   | _ => false
   end.
 
